@@ -386,6 +386,15 @@ func (fr *FuncRun) bigStub(f *Frame, st *State, c *ssa.CallCommon, callee *ssa.F
 		x, y := "(u256_of "+a.T+")", "(u256_of "+b.T+")"
 		fr.assume(st, "(and (>= "+x+" 0) (>= "+y+" 0) (= (u256_of ((as const (Array Int Int)) 0)) 0))")
 		return Val{T: fr.def(sInt, fmt.Sprintf("(ite (< %s %s) (- 1) (ite (= %s %s) 0 1))", x, y, x, y)), S: sInt}, true
+	case "(*github.com/holiman/uint256.Int).Sub", "(*github.com/holiman/uint256.Int).Add", "(*github.com/holiman/uint256.Int).Mul":
+		// z.Op(x, y) stores a (here unspecified) value in z and returns z
+		nonNil(0)
+		nonNil(1)
+		nonNil(2)
+		if a, ok := fr.ptrAddr(args[0], c.Args[0]).(ObjAddr); ok {
+			fr.havocObject(st, a, c.Args[0].Type().Underlying().(*types.Pointer).Elem())
+		}
+		return args[0], true
 	case "github.com/holiman/uint256.NewInt":
 		r := fr.allocRef("u256")
 		return Val{T: r, S: sInt, Addr: ObjAddr{Ref: r, Elem: callee.Signature.Results().At(0).Type().(*types.Pointer).Elem(), Fresh: true}}, true
